@@ -38,6 +38,10 @@ example : sharedHandouts ≠ [] := by decide
 /-- the grammar table read from grammar.py has components with more than two nodes (E, G, TF, TP, opamp forms) -/
 example : ∃ r ∈ rules, r.1 = "E" ∧ (r.2.filter (· == "n")).length = 4 := by decide
 
+/-- every context is given the one process-wide symbol registry (`State.new_context`), which is what the symbol
+    machine of Props/C16Sym.lean assumes (`use_ignores_context`) -/
+theorem contexts_share_symbols : contextsShareSymbols = true := by decide
+
 /-- `_invalidate` only names members that are memoised (anything else would raise) -/
 theorem cleared_are_memoised : ∀ s ∈ config.cleared, (config.kindOf s).isSome = true := by decide
 
